@@ -126,7 +126,7 @@ def main() -> int:
     # corpus decks as recorded traces
     ctr, cbad, ctot = [], [], {}
     if not replay or (replay and not rp.get("model")):
-        paths = corpus.decks() if thorough else corpus.subset(12, E.seed())
+        paths = corpus.decks() if thorough else sorted(set(corpus.subset(12, E.seed()) + corpus.opc_key_decks()))
         if replay:
             paths = [rp["deck"]]
         ctr = corpus_traces(paths, work) if not replay else traces
